@@ -314,6 +314,69 @@ func SyncPoint(p unsafe.Pointer, write bool) {
 	t.vc.inc(t.id)
 }
 
+// ---- sync.Pool ------------------------------------------------------------------------------
+
+// poolItem is one pooled value with the clock of the Put that pooled it (Go memory model: a
+// call to Put(x) is synchronized before a call to Get returning that same value x).
+type poolItem struct {
+	v  any
+	vc vclock
+}
+
+// PoolGet is the Pool shim's Get under an exploration. The pool is a per-execution LIFO: a Get
+// returns the value Put most recently, by whichever thread — real sync.Pool may or may not
+// hand a value to another P, so the reuse interleaving must exist for the explorer to judge
+// it. ok=false: the pool is empty (the shim calls New). handled=false: no exploration active.
+func PoolGet(p unsafe.Pointer) (v any, ok, handled bool) {
+	x, t := current()
+	if x == nil {
+		return nil, false, false
+	}
+	if x.mode == modeAbort {
+		return nil, false, true
+	}
+	if t != nil {
+		x.point(t, op{kind: opAtomic, write: true, obj: uintptr(p), st: x.obj(p)})
+	}
+	items := x.pools[uintptr(p)]
+	if len(items) == 0 {
+		return nil, false, true
+	}
+	it := items[len(items)-1]
+	x.pools[uintptr(p)] = items[:len(items)-1]
+	if t != nil {
+		t.vc.join(it.vc)
+	}
+	return it.v, true, true
+}
+
+// PoolPut is the Pool shim's Put: a scheduling point before the value is pooled and one right
+// after (from that moment another thread may be handed the value, whatever the putter still
+// does with it).
+func PoolPut(p unsafe.Pointer, v any) bool {
+	x, t := current()
+	if x == nil {
+		return false
+	}
+	if x.mode == modeAbort {
+		return true
+	}
+	if x.pools == nil {
+		x.pools = map[uintptr][]poolItem{}
+	}
+	it := poolItem{v: v}
+	if t != nil {
+		x.point(t, op{kind: opAtomic, write: true, obj: uintptr(p), st: x.obj(p)})
+		it.vc = t.vc.clone()
+		t.vc.inc(t.id)
+	}
+	x.pools[uintptr(p)] = append(x.pools[uintptr(p)], it)
+	if t != nil {
+		x.point(t, op{kind: opYield})
+	}
+	return true
+}
+
 // ---- virtual clock -----------------------------------------------------------------------
 
 var epoch = time.Date(2020, 1, 1, 0, 0, 0, 0, time.UTC)
